@@ -2,7 +2,8 @@
 
 (M) spec/Sbml.tla + SbmlDoc.tla: plain documents are constructed by actions (species with amount and/or
     concentration, globals, reactions with stoichiometries 1..3, modifiers, kinetic laws, local parameters
-    that collide with a global / another reaction's local / are unused, assignment and rate rules in any
+    that collide with a global / another reaction's local - with a different OR THE SAME value - or are
+    unused, assignment rules (also on a global parameter that a kinetic law reads) and rate rules in any
     order and number); Import gives them SBML L3 meaning with explicit environments.  TLC checks the
     scoping lemma (renaming a local apart preserves the meaning), that a one-namespace flattening refines
     it, rule-order independence, sequential = simultaneous assignment, and that a rate rule contributes
@@ -10,7 +11,8 @@
 (G) every document is written WITH LIBSBML DIRECTLY (no bioscrape code), imported with
     Model(sbml_filename=...), and compared with the spec's meaning: species and global-parameter values,
     update arrays by species name, get_rules(), the state after the repeated assignments and the net
-    rate equations (ModelCSimInterface) at rational probe states.
+    rate equations (ModelCSimInterface) at rational probe states; then every global is re-tuned with
+    set_params and the rate equations are probed again (locals must not move).
 """
 import json
 import os
@@ -129,6 +131,27 @@ def _one(rec):
                     if not close(float(dx[s2i[s]]), f(exp["deriv"][i][k])):
                         bad.append(["derivative", "%s,%s" % (loc, pat), "probe %d: d%s/dt = %r, stoichiometry x kinetic law + rate rules give %r" % (
                             i, s, float(dx[s2i[s]]), f(exp["deriv"][i][k]))])
+            # the user re-tunes one global parameter of the imported model: reactions that read the global follow,
+            # a local parameter (whatever its name and value) binds only in its reaction and must not move
+            for rt in (rec.get("retune") or []):
+                if rt["id"] not in pd:
+                    continue
+                m.set_params({rt["id"]: f(rt["val"])})
+                try:
+                    for i, xx in enumerate(rec["X"]):
+                        x = np.zeros(ns)
+                        for k, s in enumerate(names):
+                            x[s2i[s]] = f(xx[k])
+                        itf.py_apply_repeated_rules(x, 0.0, True)
+                        dx = np.zeros(ns)
+                        itf.py_calculate_deterministic_derivative(x, dx, 0.0)
+                        for k, s in enumerate(names):
+                            n += 1
+                            if not close(float(dx[s2i[s]]), f(rt["deriv"][i][k])):
+                                bad.append(["derivative-after-set_params", "%s,%s" % (loc, pat), "after set_params({%s: %r}) probe %d: d%s/dt = %r, the document with that global value gives %r" % (
+                                    rt["id"], f(rt["val"]), i, s, float(dx[s2i[s]]), f(rt["deriv"][i][k]))])
+                finally:
+                    m.set_params({rt["id"]: pd[rt["id"]]})
     finally:
         shutil.rmtree(tmp, ignore_errors=True)
     return {"bad": bad[:30], "n": n}
@@ -143,7 +166,7 @@ def tlc_runs(tier):
     runs = []
     cfg = common.make_cfg("sbmldoc_exhrx", spec="Spec", constants={"NS": "3", "MaxRx": "1", "MaxRules": "0", "Mode": '"exhrx"'}, invariants=inv)
     runs.append(("exhrx", common.run_tlc("SbmlDoc", cfg, workers=min(W, 8), allow_violation=True, keep_stdout=False)))
-    cfg = common.make_cfg("sbmldoc_exhrules", spec="Spec", constants={"NS": "4", "MaxRx": "1", "MaxRules": "3", "Mode": '"exhrules"'}, invariants=inv)
+    cfg = common.make_cfg("sbmldoc_exhrules", spec="Spec", constants={"NS": "4", "MaxRx": "2", "MaxRules": "3", "Mode": '"exhrules"'}, invariants=inv)
     runs.append(("exhrules", common.run_tlc("SbmlDoc", cfg, workers=min(W, 8), allow_violation=True, keep_stdout=False)))
     nsim = 720 if tier == "quick" else 20000
     cfg = common.make_cfg("sbmldoc_sim", spec="Spec", constants={"NS": "4", "MaxRx": "3", "MaxRules": "3", "Mode": '"sim"'}, invariants=inv)
